@@ -8,10 +8,11 @@ import numpy as np
 
 
 def wcs_simple(rot_deg=0.0, cdelt=1e-3, proj='TAN', ctype=('RA', 'DEC'), crval=(40.0, 20.0), crpix=(50.0, 60.0), flip=False,
-               radesys=None, equinox=None, encoding='cdelt_pc'):
+               radesys=None, equinox=None, encoding='cdelt_pc', lat_first=False):
     """A celestial WCS: projection, rotation (PC matrix), scale, parity, axis types, reference value.  ``encoding``:
     how the same linear transformation is written into the header -- 'cdelt_pc' (CDELT = (-s, s), PC = rotation), 'cd' (a CD
-    matrix, no CDELT), 'pc_flip' (CDELT = (s, s), the sign of the longitude axis inside the PC matrix)."""
+    matrix, no CDELT), 'pc_flip' (CDELT = (s, s), the sign of the longitude axis inside the PC matrix).  ``lat_first``: the latitude is the
+    first world axis (CTYPE1 = DEC / GLAT), the longitude the second."""
     import math
     from astropy.wcs import WCS
     w = WCS(naxis=2)
@@ -20,6 +21,13 @@ def wcs_simple(rot_deg=0.0, cdelt=1e-3, proj='TAN', ctype=('RA', 'DEC'), crval=(
     w.wcs.crval = list(crval)
     w.wcs.crpix = list(crpix)
     sx = cdelt if flip else -cdelt
+    if lat_first:
+        w.wcs.ctype = list(w.wcs.ctype)[::-1]
+        w.wcs.crval = [crval[1], crval[0]]
+        w.wcs.cdelt = [cdelt, sx]
+        t = math.radians(rot_deg)
+        w.wcs.pc = [[math.cos(t), -math.sin(t)], [math.sin(t), math.cos(t)]]
+        encoding = 'done'
     t = math.radians(rot_deg)
     pc = [[math.cos(t), -math.sin(t)], [math.sin(t), math.cos(t)]]
     if encoding == 'cd':
@@ -28,7 +36,7 @@ def wcs_simple(rot_deg=0.0, cdelt=1e-3, proj='TAN', ctype=('RA', 'DEC'), crval=(
         sg = sx / cdelt
         w.wcs.cdelt = [cdelt, cdelt]
         w.wcs.pc = [[sg * pc[0][0], sg * pc[0][1]], pc[1]]
-    else:
+    elif encoding != 'done':
         w.wcs.cdelt = [sx, cdelt]
         w.wcs.pc = pc
     if radesys:
